@@ -110,6 +110,7 @@ pub fn internal(cmd: &str, args: &[String]) -> i32 {
         "c14-worker" => e7::c14_worker(args),
         "c14-one" => e7::c14_one(args),
         "c18-worker" => e7::c18_worker(args),
+        "c20-config" => c20::config_main(args),
         _ => {
             eprintln!("unknown command {}", cmd);
             2
